@@ -397,6 +397,217 @@ def check_per_fold(tier, seed):
 
 
 # ----------------------------------------------------------------------------------------------------------
+# (c) per fold, over prediction chunk sizes (chunks that hold no row of some fold)
+# ----------------------------------------------------------------------------------------------------------
+FITTED = []
+CHUNK_MODES = ("one", "tail", "two", "tail", "folds-1", "tail", "folds", "default", "folds+1", "tail")
+
+
+def _fit_rec_model_class():
+    from mokapot.model import Model
+
+    class FitRecModel(Model):
+        """remembers which rows it was TRAINED on; nothing of the prediction path is observed"""
+
+        def fit(self, psms):
+            self.train_ids_ = psms.data["SpecId"].values.copy()
+            self.fit_done_ = False
+            FITTED.append(self)
+            out = super().fit(psms)
+            self.fit_done_ = True
+            return out
+    return FitRecModel
+
+
+def _chunk_size(cfg, n):
+    """rows per prediction chunk for a table of n rows (None = the module default, one chunk)"""
+    mode, folds = cfg["chunk_mode"], cfg["folds"]
+    if mode == "default":
+        return None
+    if mode == "one":
+        return 1
+    if mode == "two":
+        return 2
+    if mode.startswith("folds"):
+        return max(1, folds + {"folds-1": -1, "folds": 0, "folds+1": 1}[mode])
+    # "tail": cfg["parts"] long chunks and a last chunk of about cfg["tail"] rows (fewer rows than folds)
+    return max(1, (n - cfg["tail"]) // cfg["parts"])
+
+
+def _chunk_case(cfg, d):
+    """Run brew once with the prediction chunk size of cfg. Returns (df, chunk size, outcome, fitted fold models)"""
+    brew_mod = importlib.import_module("mokapot.brew")
+    df = small_df(n_spec=cfg["n_spec"], dup=2, seed=cfg["data_seed"])
+    if cfg.get("round"):
+        df["f0"] = np.round(df["f0"] * 4) / 4
+    ds = make_ds(df, d / ("p%d.%s" % (cfg["k"], cfg["fmt"])))
+    del FITTED[:]
+    model = _fit_rec_model_class()(FoldEstimator(cfg["gain"]), scaler="as-is", train_fdr=cfg["train_fdr"], max_iter=1,
+                                   override=True, rng=cfg["data_seed"])
+    chunk = _chunk_size(cfg, len(df))
+    old = brew_mod.CHUNK_SIZE_ROWS_PREDICTION
+    if chunk:
+        brew_mod.CHUNK_SIZE_ROWS_PREDICTION = chunk
+    try:
+        _, models, scores, descs = brew_mod.brew(ds, model, test_fdr=cfg["test_fdr"], folds=cfg["folds"],
+                                                 rng=cfg["rng"], max_workers=cfg["workers"])
+        outcome = ("ok", scores[0])
+    except RuntimeError as e:
+        outcome = ("RuntimeError", str(e)[:160])
+    except Exception as e:                                   # noqa: BLE001
+        outcome = ("exception:" + type(e).__name__, str(e)[:200])
+    finally:
+        brew_mod.CHUNK_SIZE_ROWS_PREDICTION = old
+    return df, chunk, outcome, list(FITTED)
+
+
+def _chunk_class(n, chunk, fold_of, folds):
+    """Names the chunking of the table, from the fold of every row (file order) and the chunk size alone."""
+    if not chunk or chunk >= n:
+        return "single-chunk"
+    gap = lack = False
+    for start in range(0, n, chunk):
+        held = set(fold_of[start:start + chunk].tolist())
+        if len(held) < folds:
+            lack = True
+            if any(f not in held for f in range(max(held))):
+                gap = True                                    # lacks fold k, holds a higher-numbered fold
+    return "chunk-lacks-lower-fold" if gap else ("chunk-lacks-fold" if lack else "all-chunks-hold-all-folds")
+
+
+def _judge_chunks(cfg, df, chunk, outcome, fitted):
+    """Returns (list of (class id, what), folds in the domain, chunk class or None)."""
+    kind, val = outcome
+    n = len(df)
+    done = [m for m in fitted if getattr(m, "fit_done_", False)]
+    if len(done) != cfg["folds"]:
+        if kind == "RuntimeError":
+            return [], 0, "untrained"                         # training stopped with an explicit error: nothing was scored
+        return [("fold-recovery-failed", "%d trained fold models for %d folds (%s)" % (len(done), cfg["folds"], kind))], 0, None
+    # fold f = the rows the model numbered f was NOT trained on (cross-validation); they must partition the table
+    done.sort(key=lambda m: m.fold)
+    fold_of = np.full(n, -1)
+    per_fold = []
+    for f, m in enumerate(done):
+        ids = np.setdiff1d(np.arange(n), m.train_ids_)
+        if len(ids) == 0 or np.any(fold_of[ids] >= 0):
+            return [("fold-recovery-failed", "the held-out rows of the fold models do not partition the table")], 0, None
+        fold_of[ids] = f
+        per_fold.append((ids, m))
+    if np.any(fold_of < 0):
+        return [("fold-recovery-failed", "the held-out rows of the fold models do not partition the table")], 0, None
+    cls = _chunk_class(n, chunk, fold_of, cfg["folds"])
+    lab_all = (df["Label"].values == 1)
+    judged = []
+    for f, (ids, m) in enumerate(per_fold):
+        # the fold's own model output, from the fitted estimator and the table (no mokapot prediction code)
+        raw = np.asarray(m.estimator.decision_function(df[list(m.features)].values[ids].astype(float)), dtype=float)
+        judged.append((f, ids, raw, lab_all[ids], anchors(raw, lab_all[ids], cfg["test_fdr"])))
+    none_accepted = [f for f, _, _, _, (t, _) in judged if t is None]
+    if kind.startswith("exception"):
+        return [(cls + ":" + kind, "brew raised: %s" % val)], 0, cls
+    if kind == "RuntimeError":
+        if none_accepted:
+            return [], 0, cls
+        f32 = [f for f, _, raw, lab, _ in judged if anchors(raw, lab, cfg["test_fdr"], True)[0] is None]
+        return [(cls + ":" + ("runtimeerror-float32-threshold-tie(C01)" if f32 else "runtimeerror-unexpected"),
+                 "brew stopped with RuntimeError although every fold has an accepted target")], 0, cls
+    scores = np.asarray(val)
+    if scores.ndim != 1 or len(scores) != n:
+        return [], 0, cls                                     # best-feature fallback took over (C07)
+    if none_accepted:
+        return [(cls + ":runtimeerror-missing", "a fold without accepted target did not stop the run")], 0, cls
+    out, n_dom = [], 0
+    for f, ids, raw, lab, _ in judged:
+        cid, what, in_dom = judge(raw, lab, cfg["test_fdr"], ("ok", scores[ids]))
+        n_dom += bool(in_dom)
+        if cid:
+            out.append((cls + ":fold:" + cid, "fold %d (chunks of %s rows, %d rows): %s" % (f, chunk, n, what)))
+    return out, n_dom, cls
+
+
+def _chunk_configs(tier, seed):
+    rng = np.random.default_rng(seed + 1111)
+    n = 40 if tier == "quick" else 600
+    cyc = len(CHUNK_MODES)
+    cfgs = []
+    for k in range(n):
+        mode = CHUNK_MODES[k % cyc]
+        folds = 2 + (k // cyc + k) % (3 if tier == "quick" else 5)
+        if mode == "one":                                     # one brew chunk per row: tiny tables, few folds
+            n_spec, folds = int(rng.integers(35, 56)), 2 + (k // cyc) % 2
+        elif mode in ("tail", "default"):
+            n_spec = int(rng.integers(100, 181))
+        else:
+            n_spec = int(rng.integers(45, 76))
+        if n_spec >= 100:
+            fdr = [0.2, 0.1, 0.25, 0.15][(k // 2) % 4] if k % 5 else float(np.round(rng.uniform(0.08, 0.3), 3))
+        else:                                                 # small folds cannot accept anything at 0.1
+            fdr = [0.2, 0.3, 0.25, 0.35][(k // 2) % 4] if k % 5 else float(np.round(rng.uniform(0.15, 0.4), 3))
+        if k % 20 == 19:
+            fdr = 0.001                                       # the explicit-error path
+        cfgs.append({"k": k, "n_spec": n_spec, "data_seed": int(rng.integers(1 << 30)),
+                     "rng": int(rng.integers(1 << 30)), "folds": folds, "test_fdr": fdr,
+                     "fmt": "parquet" if (k // 3) % 2 else "tsv", "chunk_mode": mode,
+                     "tail": int(rng.integers(1, max(2, folds))), "parts": int(rng.integers(1, 4)),
+                     "train_fdr": 0.2 if n_spec >= 100 else 0.35,
+                     "workers": 2 if k % 3 == 2 and mode in ("tail", "default", "folds+1") else 1,
+                     "gain": [1.0, 0.01, 30.0][k % 3], "round": k % 7 == 6})
+    return cfgs
+
+
+def check_per_fold_chunks(tier, seed):
+    cfgs = _chunk_configs(tier, seed)
+    ck = Check(
+        "per_fold_chunks", "mokapot.brew.brew (brew._predict over several prediction chunks -> calibrate_scores per fold)",
+        "random: %d brew runs (seed %d) on on-disk datasets (Parquet/TSV) of 200..360 PSMs (one chunk, long chunks + "
+        "short last chunk), 90..150 PSMs (chunks of 2, folds-1, folds, folds+1 rows) or 70..110 PSMs and 2..3 folds "
+        "(chunks of 1 row), folds 2..%d, max_workers 1 or 2, test_fdr in {0.2, 0.1, 0.25, 0.15, "
+        "uniform(0.08,0.3)} (small tables: {0.2, 0.3, 0.25, 0.35, uniform(0.15,0.4)}, train_fdr 0.35 instead of 0.2) or "
+        "0.001 (error path), mokapot.brew.CHUNK_SIZE_ROWS_PREDICTION monkey-patched to 1, 2, "
+        "folds-1, folds, folds+1 rows, to 1..3 long chunks followed by a last chunk of fewer rows than folds (+ at most 2), and left at "
+        "its default (one chunk); one training iteration, the per-fold-scale linear estimator of check per_fold"
+        % (len(cfgs), seed, 4 if tier == "quick" else 6),
+        "fold f = the rows the trained fold model number f was not trained on (model and training rows captured in Model.fit; nothing of the "
+        "prediction path is observed); the fold's own model output is computed from the fitted estimator and the "
+        "table; per fold the returned scores must equal (raw - t)/(t - d) with t, d from the exact oracle: same "
+        "ranking as the raw output, 0 at t, -1 at d; RuntimeError iff some fold accepts nothing; case ids are "
+        "prefixed with the chunking class computed from fold membership and chunk size; non-trivial = a scored run "
+        "whose folds are all in the domain and in which some chunk holds no row of some fold, or an error-path run")
+    seen = set()
+    stats = {"runs_ok": 0, "folds_in_domain": 0, "error_path": 0, "fallback": 0, "untrained": 0, "single-chunk": 0,
+             "all-chunks-hold-all-folds": 0, "chunk-lacks-fold": 0, "chunk-lacks-lower-fold": 0}
+    with scratch("c11c_") as d:
+        for cfg in cfgs:
+            df, chunk, outcome, fitted = _chunk_case(cfg, d)
+            vio, n_dom, cls = _judge_chunks(cfg, df, chunk, outcome, fitted)
+            if cls:
+                stats[cls] += 1
+            if cls == "untrained":
+                pass
+            elif outcome[0] == "RuntimeError":
+                stats["error_path"] += 1
+            elif outcome[0] == "ok" and np.ndim(outcome[1]) != 1:
+                stats["fallback"] += 1
+            elif outcome[0] == "ok":
+                stats["runs_ok"] += 1
+                stats["folds_in_domain"] += n_dom
+            nontriv = (outcome[0] == "RuntimeError" and not vio and cls != "untrained") or \
+                (outcome[0] == "ok" and n_dom == cfg["folds"] and str(cls).startswith("chunk-lacks"))
+            ck.case(cfg, nontrivial=nontriv)
+            for cid, what in vio:
+                if cid not in seen:
+                    seen.add(cid)
+                    ck.violation(cid, what, cfg)
+    ck.rule += "; %(runs_ok)d scored runs with %(folds_in_domain)d folds in the domain, %(error_path)d error-path " \
+               "runs, %(fallback)d fallback runs, %(untrained)d runs not judged because training itself stopped with " \
+               "RuntimeError (table too small for train_fdr); chunking of the runs: %(single-chunk)d single chunk, " \
+               "%(all-chunks-hold-all-folds)d every chunk holds all folds, %(chunk-lacks-fold)d some chunk lacks " \
+               "only its highest folds, %(chunk-lacks-lower-fold)d some chunk lacks fold k but holds a higher-numbered fold" % stats
+    return _freeze(ck)
+
+
+# ----------------------------------------------------------------------------------------------------------
 def REPLAY(check_name, violation):
     inp = violation["input"]
     if isinstance(inp, str):
@@ -414,13 +625,18 @@ def REPLAY(check_name, violation):
             df, outcome, folds = _brew_case(inp, d)
             vio, _ = _judge_brew(inp, df, outcome, folds)
         return {"violated": bool(vio), "detail": vio}
+    if check_name == "per_fold_chunks":
+        with scratch("c11r_") as d:
+            df, chunk, outcome, fitted = _chunk_case(inp, d)
+            vio, _, cls = _judge_chunks(inp, df, chunk, outcome, fitted)
+        return {"violated": bool(vio), "detail": vio, "chunking": cls}
     return {"violated": None, "note": "no replay for %s" % check_name}
 
 
 if __name__ == "__main__":
     a = args()
     np.random.seed(a.seed)
-    emit([check_calibrate(a.tier, a.seed), check_per_fold(a.tier, a.seed)],
+    emit([check_calibrate(a.tier, a.seed), check_per_fold(a.tier, a.seed), check_per_fold_chunks(a.tier, a.seed)],
          ["accepted targets are decided by the exact rational q-values of the C01 oracle, rounded to the nearest double "
           "(q <= eval_fdr); a mismatch "
           "explained by tdc's float32 rounding at the threshold gets a case id ending in '(C01)'",
@@ -428,4 +644,9 @@ if __name__ == "__main__":
           "median (t > d), the property's stated domain; for t <= d only the RuntimeError-iff clause is checked",
           "a fold is the set of rows a fold model was asked to score (recorded in Model.predict); brew runs in which "
           "the best-feature fallback replaces the model scores are counted but not judged (C07)",
+          "per_fold_chunks: a fold is the set of rows its fold model was NOT trained on (training rows captured in "
+          "Model.fit) and the fold's raw output is recomputed from the fitted estimator, so rows scored by another "
+          "fold's model or calibrated with another fold show up; the prediction chunk size is set by monkey-patching "
+          "mokapot.brew.CHUNK_SIZE_ROWS_PREDICTION; runs whose TRAINING stops with RuntimeError (table too small for "
+          "train_fdr) are counted, not judged; one file per run (several files are not covered)",
           "comparison tolerance %g relative; desc=True only" % TOL])
